@@ -1065,5 +1065,12 @@ def rule_signedness(ctx):
 
 
 
+
+def rule_byte_order(ctx):
+    """(shared C02.i)  every multi-byte field of the extension codecs is explicitly big-endian (rules/c02.py)."""
+    from .c02 import rule_byte_order as rb
+    rb(ctx)
+
+
 RULES = [('C18.a', rule_a), ('C18.b', rule_b), ('C18.c', rule_c), ('C18.d', rule_d), ('C18.e', rule_e),
-         ('C18.f', rule_f), ('C18.g', rule_entries), ('C18.h', rule_h), ('C12.e', rule_g), ('C18.i', rule_i), ('C18.j', rule_j), ('C18.k', rule_k), ('C18.l', rule_signedness)]
+         ('C18.f', rule_f), ('C18.g', rule_entries), ('C18.h', rule_h), ('C12.e', rule_g), ('C18.i', rule_i), ('C18.j', rule_j), ('C18.k', rule_k), ('C18.l', rule_signedness), ('C02.i', rule_byte_order)]
